@@ -8,17 +8,15 @@ From Coq Require Import Permutation.
 From Ford Require Import Base.Str Base.Order Out.Names Out.Project Out.ProjectProofs.
 
 (* Full statement: the identifiers (hence page names, anchors and URLs) depend neither on the
-   iteration order of the set of source files (pi), nor on the iteration orders of the sets of
-   objects hashed by id that the run walks — the sets that ask for identifiers already assigned
-   (sigma) and the order among requests for different names inside the rank-ordered loops (F1, F2:
-   any two sequences that agree with the project's, key by key).  Well-formedness: one request per
-   entity, distinct paths. *)
+   iteration order of the set of source files (pi) nor on the iteration orders (sigma) of the sets
+   of objects hashed by id that the run sorts or walks: the toposort of modules, the toposorts of a
+   scope's types, the sets of graph construction.  Well-formedness: distinct paths. *)
 Definition C12_statement : Prop :=
-  forall P pi1 pi2 sigma1 sigma2 F1 F2,
-    consistentb P = true -> NoDup (map f_path (p_files P)) ->
+  forall P pi1 pi2 sigma1 sigma2,
+    NoDup (map f_path (p_files P)) ->
     is_perm pi1 (length (p_files P)) -> is_perm pi2 (length (p_files P)) ->
-    sigma_ok P pi1 sigma1 -> sigma_ok P pi2 sigma2 -> fixed_ok P F1 -> fixed_ok P F2 ->
-    idents P pi1 sigma1 F1 = idents P pi2 sigma2 F2.
+    sigma_ok P pi1 sigma1 -> sigma_ok P pi2 sigma2 ->
+    idents P pi1 sigma1 = idents P pi2 sigma2.
 
 (* MAIN THEOREM: it holds — any number of files, competing names or not *)
 Theorem C12_deterministic : C12_statement.
@@ -33,11 +31,9 @@ Theorem C12_file_order_irrelevant : forall P pi1 pi2,
 Proof. exact sorted_enum_canonical. Qed.
 Print Assumptions C12_file_order_irrelevant.
 
-Theorem C12_set_order_irrelevant : forall P pi sigma1 sigma2 F1 F2,
-  consistentb P = true -> is_perm pi (length (p_files P)) ->
-  sigma_ok P pi sigma1 -> sigma_ok P pi sigma2 -> fixed_ok P F1 -> fixed_ok P F2 ->
-  idents P pi sigma1 F1 = idents P pi sigma2 F2.
-Proof. exact set_order_irrelevant. Qed.
+Theorem C12_set_order_irrelevant : forall P pi sigma1 sigma2,
+  sigma_ok P pi sigma1 -> sigma_ok P pi sigma2 -> idents P pi sigma1 = idents P pi sigma2.
+Proof. exact idset_order_irrelevant. Qed.
 Print Assumptions C12_set_order_irrelevant.
 
 (* the per-key factorisation behind it: the identifier of an entity is decided by the requests for
@@ -52,8 +48,8 @@ Print Assumptions C12_ident_by_key.
    the selector: phases that only ask for what has been asked for leave the selector as it is *)
 Theorem C12_repeated_requests_irrelevant : forall pl enum fixed t1 t2 acc st,
   (forall r, In r acc -> has_item st r) ->
-  (forall k r, In r (nth k t1 []) -> In r (seen_before pl enum k acc)) ->
-  (forall k r, In r (nth k t2 []) -> In r (seen_before pl enum k acc)) ->
+  (forall k r, In r (nth k t1 []) -> In r (seen_before pl enum fixed k acc)) ->
+  (forall k r, In r (nth k t2 []) -> In r (seen_before pl enum fixed k acc)) ->
   fst (run st (registration_of pl enum fixed t1)) = fst (run st (registration_of pl enum fixed t2)).
 Proof. exact idset_irrelevant_of. Qed.
 Print Assumptions C12_repeated_requests_irrelevant.
@@ -67,24 +63,30 @@ Proof. exact sorted_is_canonical_gen. Qed.
 Print Assumptions C12_sorted_is_canonical_any_order.
 
 (* ... nor does the place where the project lives matter (all source files below one root) *)
-Theorem C12_location_irrelevant : forall root P pi sigma F,
-  idents (relocate root P) pi sigma F = idents P pi sigma F.
+Theorem C12_location_irrelevant : forall root P pi sigma,
+  idents (relocate root P) pi sigma = idents P pi sigma.
 Proof. exact location_irrelevant. Qed.
 Print Assumptions C12_location_irrelevant.
 
 (* non-vacuity, and the former refutation witnesses on the repaired pipeline: two modules named m in
-   two files (and a variable x in each): a.f90 owns "m" and "variable-x", b.f90 gets "m~2" and
-   "variable-x~2", whatever pi and sigma *)
+   two files, a variable x in each, two types named t (one the renamed parent of child), two inherited
+   copies of a generic binding show: a.f90 owns "m" and "variable-x", b.f90 gets "m~2" and "variable-x~2",
+   the types are t / t~2 and the bindings show / show~2 in list order — whatever pi and sigma *)
 Theorem C12_former_witnesses_repaired :
   NoDup (map f_path (p_files twins_project)) /\
   is_perm [1; 0] (length (p_files twins_project)) /\
-  idsel twins_project [1; 0] = [[mkr 1 (s "module") (s "m"); mkr 2 (s "module") (s "m")]] /\
-  sigma_ok twins_project [1; 0] [[1; 0]] /\ sigma_ok twins_project [0; 1] [[0; 1]] /\
-  fixed_ok twins_project (p_sets twins_project) /\ consistentb twins_project = true /\
-  idents twins_project [1; 0] [[1; 0]] (p_sets twins_project)
-    = idents twins_project [0; 1] [[0; 1]] (p_sets twins_project) /\
-  idents twins_project [1; 0] [[1; 0]] (p_sets twins_project) =
-    [(3, Some (s "x")); (1, Some (s "m")); (4, Some (s "x~2")); (2, Some (s "m~2")); (5, Some (s "t"))].
+  idsel twins_project [1; 0] =
+    [[mkr 1 (s "module") (s "m"); mkr 2 (s "module") (s "m")];
+     [mkr 5 (s "type") (s "t"); mkr 8 (s "None") (s "show"); mkr 9 (s "None") (s "show")];
+     [mkr 5 (s "type") (s "t"); mkr 6 (s "type") (s "t"); mkr 7 (s "type") (s "child")]] /\
+  sigma_ok twins_project [1; 0] [[1; 0]; [2; 0; 1]; [1; 2; 0]] /\
+  sigma_ok twins_project [0; 1] [[0; 1]; [0; 1; 2]; [0; 1; 2]] /\
+  idents twins_project [1; 0] [[1; 0]; [2; 0; 1]; [1; 2; 0]]
+    = idents twins_project [0; 1] [[0; 1]; [0; 1; 2]; [0; 1; 2]] /\
+  idents twins_project [1; 0] [[1; 0]; [2; 0; 1]; [1; 2; 0]] =
+    [(3, Some (s "x")); (1, Some (s "m")); (4, Some (s "x~2")); (2, Some (s "m~2"));
+     (5, Some (s "t")); (6, Some (s "t~2")); (7, Some (s "child"));
+     (8, Some (s "show")); (9, Some (s "show~2"))].
 Proof. exact twins_project_ok. Qed.
 Print Assumptions C12_former_witnesses_repaired.
 
@@ -97,8 +99,9 @@ Theorem C12_unsorted_refuted : ~ C12_unsorted_statement.
 Proof. exact unsorted_statement_refuted. Qed.
 Print Assumptions C12_unsorted_refuted.
 
-(* what the toposort repair repaired: a set-ordered loop that is the first to ask for identifiers
-   (two equally named modules were numbered in the iteration order of a set of objects) *)
+(* what the toposort repairs repaired (modules: 449eb77; a scope's types; the procedures graph_all
+   sorts): a set-ordered loop that is the first to ask for identifiers — equally named entities
+   were numbered in the iteration order of a set of objects *)
 Definition C12_free_sets_statement : Prop :=
   forall P pi sigma1 sigma2,
     is_perm pi (length (p_files P)) ->
